@@ -2,9 +2,11 @@
 //
 // The real handler is built with the exported options (WithStatus, WithContentType, WithErrorHandler,
 // WithStreaming) around components that write k chunks and then succeed or fail, and is driven twice:
-// into an httptest.ResponseRecorder and through a real httptest.Server round trip. The extracted model
-// (coq/model/Handler.v) runs the same configuration; the extracted specification predicate
-// (coq/spec/HandlerSpec.v: all_or_nothing_b) is evaluated on the real response.
+// into an httptest.ResponseRecorder and through a real httptest.Server round trip, with requests of every
+// method, protocol version (HTTP/1.0, 1.1, 2), header set, body and context state (request.go). The
+// extracted model (coq/model/Handler.v) runs the same request and configuration; the extracted
+// specification predicate (coq/spec/HandlerSpec.v: all_or_nothing_b, and all_or_nothing_wire_b for what
+// the client of a HEAD receives) is evaluated on the real response.
 package c11
 
 import (
@@ -791,15 +793,16 @@ func why(o obs) string {
 }
 
 func Run(c *core.Ctx) {
-	c.Rule = "cases = (handler configuration, component outcome, transport): configuration = status unset/set x content type default/set/empty x error handler unset/silent/writing headers, status, body x streaming off/on; outcome = k chunks (k = 0..8 and 40, sizes 0, 1, around 4096, around 65536, 200000) then success or failure with one of 32 kinds of error value (plain, context.Canceled/DeadlineExceeded bare, wrapped, from a sub-context, inside templ.Error or errors.Join, io/net/syscall/http sentinels, typed nil, Is()-everything ...); each served by the real templ.Handler into an httptest.ResponseRecorder and over a real httptest.Server round trip. distinct non-trivial = distinct (configuration, chunk sizes, fails, transport) in which the component fails or writes at least 4095 bytes"
+	c.Rule = "cases = (request, handler configuration, component outcome, transport): request = method (GET, HEAD, POST, PUT, PATCH, DELETE, OPTIONS, extension methods) x protocol version (HTTP/1.1 by net/http's client, HTTP/1.0 on a raw connection, HTTP/2 over TLS) x state of r.Context() (live, deadline ahead, already cancelled, deadline exceeded) x query string x header fields (Accept, Range, If-None-Match, Connection, ...) x body - 143 structured requests in full product with a set of configurations and outcomes, cycled through every other sweep, and random ones; configuration = status unset/set x content type default/set/empty x error handler unset/silent/writing headers, status, body x streaming off/on; outcome = k chunks (k = 0..8 and 40, sizes 0, 1, around 4096, around 65536, 200000) then success or failure with one of 32 kinds of error value (plain, context.Canceled/DeadlineExceeded bare, wrapped, from a sub-context, inside templ.Error or errors.Join, io/net/syscall/http sentinels, typed nil, Is()-everything ...), and context-aware components that return ctx.Err() without writing when the request's context is done; each served by the real templ.Handler into an httptest.ResponseRecorder and over a real httptest.Server round trip. distinct non-trivial = distinct (request, configuration, chunk sizes, fails, context-aware, transport) in which the component fails or writes at least 4095 bytes"
 	c.Trusted = append(c.Trusted,
 		"specification spec/HandlerSpec.v (all_or_nothing over status, header map, body)",
 		"extraction: ExtrOcamlBasic only; ocaml/driver.ml (hex line protocol); request decoding in coq/extract/X11.v",
 		"net/http server and client, httptest.ResponseRecorder (their ResponseWriter behaviour is modelled in model/Handler.v and compared on every run)",
 		"Go harness internal/c11 and the Go toolchain")
 	c.Assume = append(c.Assume,
-		"a component is described by what the handler can see of it: the chunks it writes to its io.Writer and whether Render then returns an error (panics, writes after returning, context use are out of scope)",
-		"an error handler is described by the ResponseWriter calls it makes (theorems: any function on the writer state); correspondence covers Header().Set/Del, WriteHeader, Write, http.Error",
+		"a component is described by what the handler can see of it: given the state of the context it is rendered with, the chunks it writes to its io.Writer and whether Render then returns an error (theorems: any function of the context state; correspondence: components that ignore the context and components that return ctx.Err() first; panics, writes after returning, a context cancelled during rendering are out of scope)",
+		"an error handler is described by the ResponseWriter calls it makes given the request (theorems: any function of the request and the writer state); correspondence covers Header().Set/Del, WriteHeader, Write, http.Error and echoing method, query string and protocol version of the request into a header",
+		"the request is a record of method, protocol version, target, header fields, body and context state; what a client receives is the response given to the ResponseWriter, without its body in reply to HEAD (client_view); request bodies are not sent on connections the server closes after the reply (HTTP/1.0, Connection: close), where net/http resets the connection over an unread body",
 		"ResponseWriter model: final status codes 200..999 other than 204/304, Content-Type present at the first write (templ always sets it; an error handler deleting it would make net/http sniff a type), no write errors (handler.go ignores them)",
 		"requests are served one after another against the buffer pool in the theorem C11_pooled_all_or_nothing; isolation of concurrently rendering requests is property C14 (the thorough tier still fires concurrent requests at the real server)")
 	c.Proofs()
